@@ -172,6 +172,24 @@ theorem rangeList_get (lo : Int) (n i : Nat) (h : i < n) :
       congr 3
       omega
 
+/-- the members of a range: the lower bound, then lower bound + 1, + 2, … -/
+theorem rangeFrom_get (a : N) (n i : Nat) (h : i < n) :
+    (rangeFrom a n)[i]? = some (if i = 0 then .num a else .num (ofInt (toInt a + i))) := by
+  cases n with
+  | zero => omega
+  | succ k =>
+    cases i with
+    | zero => simp [rangeFrom]
+    | succ j =>
+      simp only [rangeFrom, List.getElem?_cons_succ]
+      rw [rangeList_get (toInt a + 1) k j (by omega)]
+      simp only [Nat.succ_ne_zero, if_false]
+      congr 3
+      omega
+
+theorem rangeFrom_length (a : N) (n : Nat) : (rangeFrom a n).length = n := by
+  cases n <;> simp [rangeFrom, rangeList_length]
+
 /-- `[a..b]` for integers a ≤ b: the integers from a to b; none when a > b; errors for
     non-integer bounds and for more than `maxRangeItems` items. -/
 theorem range_numbers (a b : N) :
@@ -181,7 +199,7 @@ theorem range_numbers (a b : N) :
       else if lt b a then .ok none
       else if toInt (sub b a) + 1 < 0 || toInt (sub b a) + 1 > (maxRangeItems : Int)
         then .error (.eval .maxRangeItems)
-      else .ok (some (.arr (rangeList (toInt a) (toInt (sub b a) + 1).toNat))) := by
+      else .ok (some (.arr (rangeFrom a (toInt (sub b a) + 1).toNat))) := by
   unfold rangeOp
   by_cases ha : isIntegerN a = true <;> by_cases hb : isIntegerN b = true <;> simp [ha, hb]
 
@@ -231,6 +249,11 @@ theorem cond_error (r : Rec N) (c t : Node N) (e : Option (Node N))
 /-! ### regenerated facts (the tie to /repo's source) -/
 
 theorem fact_maxRangeItems : Generated.maxRangeItems = maxRangeItems := by decide
+
+/-- the bound is checked in one place, on the size of the range itself (rhs − lhs + 1), with the
+    overflow guard — not, for instance, on the length of an array under construction -/
+theorem fact_range_guard :
+    Generated.rangeGuards = ["evalRange | size < 0 || size > maxRangeItems | size := int(rhs-lhs) + 1"] := by decide
 
 def allEvalErrKinds : List EvalErrKind :=
   [.nonIntegerLHS, .nonIntegerRHS, .nonNumberLHS, .nonNumberRHS, .nonComparableLHS,
